@@ -5,6 +5,8 @@ from ..index import AnalysisError, dotted
 from ..astutil import text, short, endswith, calls_in, walk_no_nested
 from ._h_F import Res, res_of, atoms
 
+from . import _c22_idem
+
 EXPLANATION = (
   "Decides (R1) totality by shape: no column type overrides convert(); convert() returns error "
   "objects unchanged and wraps do_convert() in a try whose catch-all handler cannot raise; and "
@@ -12,8 +14,11 @@ EXPLANATION = (
   "has an outer type accepted by that type's is_right_type() (read from its own source), or is a "
   "str (alt-text). Tags are inferred from constructors, literals, isinstance guards on the "
   "returned name, local assignments and, across calls, the returns of the repo's own helpers. "
-  "Container results are checked at the outer tag only. Not decided: idempotence of convert() on "
-  "its own results (value-level).")
+  "Container results are checked at the outer tag only. (R3) decides idempotence of do_convert() "
+  "on its own constructed results by result classes: each class of constructed result is fed back "
+  "through the same function's CFG and every return it can reach must be a fixpoint (see "
+  "_c22_idem docstring); what that small theory cannot prove equal is reported as undecided, not "
+  "guessed.")
 
 PRIM = {"str", "int", "float", "bool", "none", "bytes", "tuple", "list", "RecordList", "dict"}
 ALLNUM = {"int", "float"}
@@ -23,6 +28,7 @@ def check(run, repo, tier):
   w = World(repo)
   r1_totality(run, w)
   r2_tags(run, w)
+  run.guard(_c22_idem.r3_idempotence, run, w, _types(w))
 
 
 def _types(w):
@@ -281,6 +287,12 @@ class Tagger(object):
     if isinstance(e, ast.IfExp):
       return self.tags(e.body, fi, nid, tuple(facts) + tuple(atoms(e.test, True)), depth) | \
           self.tags(e.orelse, fi, nid, tuple(facts) + tuple(atoms(e.test, False)), depth)
+    if isinstance(e, ast.BoolOp):
+      # `A or B` / `A and B` evaluate to one of their operands
+      out = set()
+      for v in e.values:
+        out |= self.tags(v, fi, nid, facts, depth)
+      return out
     if isinstance(e, ast.JoinedStr):
       return {"str"}
     if isinstance(e, (ast.List, ast.ListComp)):
@@ -412,7 +424,7 @@ VARIANTS = [
    "    ret = float(value)\n    if not is_int_short(ret):\n      raise OverflowError(\"Integer value too large\")\n    return ret\n\n  @classmethod\n  def is_right_type(cls, value):\n    return value is None or", "C22-R2"),
   ("bool-returns-none", UT, "    if not value:\n      return False\n    if isinstance(value, _numeric_types):\n      return True",
    "    if not value:\n      return False\n    if isinstance(value, _numeric_types):\n      return value", "C22-R2"),
-  ("choicelist-returns-list-of-any", UT, "      return tuple(str(item) for item in value)\n\n  @classmethod",
+  ("choicelist-returns-list-of-any", UT, "      return tuple(str(item) for item in value) or None\n\n  @classmethod",
    "      return dict.fromkeys(value)\n\n  @classmethod", "C22-R2"),
   ("position-returns-none", UT, "    return float(value) if value not in (\"\", None) else float('inf')",
    "    return float(value) if value not in (\"\", None) else None", "C22-R2"),
